@@ -465,6 +465,9 @@ class Dispatcher(BaseDispatcher, Generic[ContextType]):
                             if not isinstance(resp, UnsetType)
                         ),
                     )
+                    if len(response) == 0:
+                        # a batch made only of notifications is not answered at all
+                        response = UNSET
             else:
                 response = self._request_handler(request, context)
 
@@ -614,6 +617,9 @@ class AsyncDispatcher(BaseDispatcher, Generic[ContextType]):
                             if resp
                         ),
                     )
+                    if len(response) == 0:
+                        # a batch made only of notifications is not answered at all
+                        response = UNSET
             else:
                 response = await self._request_handler(request, context)
 
